@@ -140,13 +140,9 @@ fn recovered_nonces(instr: &str, args: &[&str], bytes: &[u8]) -> Option<Vec<(Str
     Some(v.into_iter().map(|(n, s)| (format!("nonce:{}", n), s.to_bytes().to_vec())).collect())
 }
 
-pub fn op_fresh(a: &[&str]) -> String {
-    let Some((what, rest)) = a.split_first() else { return "bad-op".into() };
-    let Some((count, args)) = rest.split_last() else { return "bad-op".into() };
-    let Ok(count) = count.parse::<usize>() else { return "bad-op".into() };
-    let mut samples = vec![];
-    for _ in 0..count {
-        let fields: Vec<(String, Vec<u8>)> = match *what {
+/// one call of the randomized entry point `what` on `args`: the values that must never repeat
+fn sample(what: &str, args: &[&str], first: bool) -> Result<Vec<(String, Vec<u8>)>, String> {
+    let fields: Vec<(String, Vec<u8>)> = match what {
             "keygen" => {
                 let k = ElGamalKeypair::new_rand();
                 vec![("secret".into(), k.secret().as_bytes().to_vec()), ("public".into(), k.pubkey().to_bytes().to_vec())]
@@ -154,63 +150,91 @@ pub fn op_fresh(a: &[&str]) -> String {
             "aekeygen" => vec![("key".into(), <[u8; 16]>::from(AeKey::new_rand()).to_vec())],
             "opening" => vec![("opening".into(), PedersenOpening::new_rand().to_bytes().to_vec())],
             "pedersen" => {
-                let Some(x) = args.first().and_then(|s| s.parse::<u64>().ok()) else { return "bad-op".into() };
+                let Some(x) = args.first().and_then(|s| s.parse::<u64>().ok()) else { return Err("bad-op".into()) };
                 let (c, o) = Pedersen::new(x);
                 vec![("commitment".into(), c.to_bytes().to_vec()), ("opening".into(), o.to_bytes().to_vec())]
             }
             "enc" => {
-                let (Some(p), Some(x)) = (args.first().and_then(|s| pubkey(s)), args.get(1).and_then(|s| s.parse::<u64>().ok())) else { return "bad-op".into() };
+                let (Some(p), Some(x)) = (args.first().and_then(|s| pubkey(s)), args.get(1).and_then(|s| s.parse::<u64>().ok())) else { return Err("bad-op".into()) };
                 let ct = p.encrypt(x).to_bytes();
                 vec![("commitment".into(), ct[..32].to_vec()), ("handle".into(), ct[32..].to_vec())]
             }
             "encu64" => {
-                let (Some(p), Some(x)) = (args.first().and_then(|s| pubkey(s)), args.get(1).and_then(|s| s.parse::<u64>().ok())) else { return "bad-op".into() };
+                let (Some(p), Some(x)) = (args.first().and_then(|s| pubkey(s)), args.get(1).and_then(|s| s.parse::<u64>().ok())) else { return Err("bad-op".into()) };
                 let ct = p.encrypt_u64(x).to_bytes();
                 vec![("commitment".into(), ct[..32].to_vec()), ("handle".into(), ct[32..].to_vec())]
             }
             "seckeygen" => vec![("secret".into(), solana_zk_sdk::encryption::elgamal::ElGamalSecretKey::new_rand().as_bytes().to_vec())],
             "genc" => {
-                let Some(x) = args.first().and_then(|s| s.parse::<u64>().ok()) else { return "bad-op".into() };
+                let Some(x) = args.first().and_then(|s| s.parse::<u64>().ok()) else { return Err("bad-op".into()) };
                 let ks: Option<Vec<_>> = args[1..].iter().map(|k| pubkey(k)).collect();
-                let Some(ks) = ks else { return "bad-op".into() };
+                let Some(ks) = ks else { return Err("bad-op".into()) };
                 let b = match ks.len() {
                     2 => GroupedElGamal::<2>::encrypt([&ks[0], &ks[1]], x).to_bytes(),
                     3 => GroupedElGamal::<3>::encrypt([&ks[0], &ks[1], &ks[2]], x).to_bytes(),
-                    _ => return "bad-op".into(),
+                    _ => return Err("bad-op".into()),
                 };
                 b.chunks(32).enumerate().map(|(i, c)| (format!("gct{}", i), c.to_vec())).collect()
             }
             "ae" => {
-                let (Some(k), Some(x)) = (args.first().and_then(|s| unhex(s)), args.get(1).and_then(|s| s.parse::<u64>().ok())) else { return "bad-op".into() };
-                let Ok(k) = AeKey::try_from(k.as_slice()) else { return "bad-op".into() };
+                let (Some(k), Some(x)) = (args.first().and_then(|s| unhex(s)), args.get(1).and_then(|s| s.parse::<u64>().ok())) else { return Err("bad-op".into()) };
+                let Ok(k) = AeKey::try_from(k.as_slice()) else { return Err("bad-op".into()) };
                 let ct = k.encrypt(x).to_bytes();
                 vec![("nonce".into(), ct[..12].to_vec()), ("ciphertext".into(), ct[12..].to_vec())]
             }
             w if w.starts_with("range") => {
                 let mut av = vec![&w[5..]];
                 av.extend(args.iter());
-                let Some(Ok(b)) = crate::range::construct(&av) else { return "bad-op".into() };
+                let Some(Ok(b)) = crate::range::construct(&av) else { return Err("bad-op".into()) };
                 fresh_fields(w).iter().map(|o| (format!("proof+{}", o), b[264 + o..264 + o + 32].to_vec())).collect()
             }
             instr => {
-                let Some(Ok(b)) = construct(instr, args) else { return "bad-op".into() };
-                if samples.is_empty() {
-                    if let Some(leak) = public_nonce(instr, &b) { return leak; }
+                let Some(Ok(b)) = construct(instr, args) else { return Err("bad-op".into()) };
+                if first {
+                    if let Some(leak) = public_nonce(instr, &b) { return Err(leak); }
                 }
                 let cl = ctx_len(instr);
                 let mut f: Vec<(String, Vec<u8>)> = fresh_fields(instr).iter().map(|o| (format!("proof+{}", o), b[cl + o..cl + o + 32].to_vec())).collect();
                 // the nonces themselves (recovered with the witness): each position fresh, none zero
                 match recovered_nonces(instr, args, &b) {
                     Some(ns) => {
-                        if let Some((n, _)) = ns.iter().find(|(_, v)| v.iter().all(|x| *x == 0)) { return format!("zero-nonce:{}", n); }
+                        if let Some((n, _)) = ns.iter().find(|(_, v)| v.iter().all(|x| *x == 0)) { return Err(format!("zero-nonce:{}", n)); }
                         f.extend(ns);
                     }
-                    None => return "nonce-recovery-failed".into(),
+                    None => return Err("nonce-recovery-failed".into()),
                 }
                 f
             }
         };
-        samples.push(fields);
+    Ok(fields)
+}
+
+pub fn op_fresh(a: &[&str]) -> String {
+    let Some((what, rest)) = a.split_first() else { return "bad-op".into() };
+    let Some((count, args)) = rest.split_last() else { return "bad-op".into() };
+    let Ok(count) = count.parse::<usize>() else { return "bad-op".into() };
+    let mut samples = vec![];
+    for _ in 0..count {
+        match sample(what, args, samples.is_empty()) {
+            Ok(f) => samples.push(f),
+            Err(e) => return e,
+        }
+    }
+    // the first calls made on freshly started threads: nothing may repeat across threads either
+    let what_s = what.to_string();
+    let args_s: Vec<String> = args.iter().map(|x| x.to_string()).collect();
+    let handles: Vec<_> = (0..3).map(|_| {
+        let (w, a) = (what_s.clone(), args_s.clone());
+        std::thread::spawn(move || {
+            let av: Vec<&str> = a.iter().map(|x| x.as_str()).collect();
+            (0..2).map(|_| sample(&w, &av, false)).collect::<Vec<_>>()
+        })
+    }).collect();
+    for h in handles {
+        match h.join() {
+            Ok(v) => for r in v { match r { Ok(f) => samples.push(f), Err(e) => return e } },
+            Err(_) => return "P".into(),
+        }
     }
     check(samples)
 }
